@@ -5,7 +5,7 @@
 From Coq Require Import List ZArith Bool Sorting.Permutation.
 From FV Require Import Base OutputM Sched.
 From FV Require Info.
-From FVP Require Import Adapters_proofs Sched_proofs Confluence_proofs OutputM_proofs Series_proofs Termination_proofs Order_proofs Trace_proofs.
+From FVP Require Import Adapters_proofs Sched_proofs Confluence_proofs OutputM_proofs Series_proofs Termination_proofs Order_proofs Trace_proofs Confluence2_proofs.
 From FVP Require Info_proofs.
 Import ListNotations.
 Open Scope Z_scope.
@@ -29,6 +29,27 @@ Proof.
   intros cs endt m prio1 prio2 fuel1 fuel2 st1 acc1 st2 acc2 W SL Hm Hlt H1 H2 R1 R2.
   eapply (confluence cs W SL endt); [apply pick_prio_ok; exact H1|apply pick_prio_ok; exact H2| |exact R1|exact R2].
   eapply init_running; eauto.
+Qed.
+
+(** The same for links WITH per-link state — DelayToPull adapters, which remember the times of the consumer's own
+    previous pulls: the only adapter excluded is DelayToPush, whose answer depends on the newest publication (the
+    "push-time-dependent adapter" of the property).  The requirement of update j of a component is judged with the
+    link state it has after j-1 updates, which is a function of j alone ([lafter]); the final link states coincide too. *)
+Theorem C05_final_times_with_delay_to_pull :
+  forall cs endt m prio1 prio2 fuel1 fuel2 st1 acc1 st2 acc2,
+    wf cs -> nopush cs -> min_start cs = Some m -> m < endt ->
+    (forall c, (c < length cs)%nat -> In c prio1) ->
+    (forall c, (c < length cs)%nat -> In c prio2) ->
+    run_prio prio1 fuel1 cs endt = (OOk, st1, acc1) ->
+    run_prio prio2 fuel2 cs endt = (OOk, st2, acc2) ->
+    (forall c, is_time cs c = true -> s_cnt st1 c = s_cnt st2 c /\ s_time st1 c = s_time st2 c) /\
+    (forall x y inp, nth_error (c_inputs (getc cs x)) y = Some inp -> s_link st1 x y = s_link st2 x y).
+Proof.
+  intros cs endt m prio1 prio2 fuel1 fuel2 st1 acc1 st2 acc2 W NP Hm Hlt H1 H2 R1 R2.
+  pose proof (init_running cs endt m Hm Hlt) as AR.
+  split.
+  - eapply (confluence2 cs W NP endt); [apply pick_prio_ok; exact H1|apply pick_prio_ok; exact H2|exact AR|exact R1|exact R2].
+  - eapply (final_links2 cs W NP endt); [apply pick_prio_ok; exact H1|apply pick_prio_ok; exact H2|exact AR|exact R1|exact R2].
 Qed.
 
 (** The run in list order is one of them. *)
@@ -231,7 +252,29 @@ Proof.
   vm_compute. repeat split; try reflexivity. intros E; inversion E.
 Qed.
 
+(** Non-vacuity for DelayToPull links: two consumers behind DelayToPull adapters with different history lengths. *)
+Definition ex5p : composition :=
+  [ mkC (KTime 0 [3] true) 1 [ mkIn (1, 0)%nat [AToPull 2 1]; mkIn (2, 0)%nat [APass; AToPull 1 0; AFixed 1] ];
+    mkC (KTime 0 [2] false) 1 [];
+    mkC (KTime 0 [2; 1] false) 1 [] ].
+
+Example C05_delay_to_pull_nonvacuous :
+  wf ex5p /\ nopush ex5p /\ min_start ex5p = Some 0 /\
+  (let '(o1, s1, a1) := run_prio [0; 1; 2]%nat 100 ex5p 10 in
+   let '(o2, s2, a2) := run_prio [2; 1; 0]%nat 100 ex5p 10 in
+   o1 = OOk /\ o2 = OOk /\ rev a1 <> rev a2 /\ final_times ex5p s1 = final_times ex5p s2 /\
+   s_link s1 0%nat 0%nat = s_link s2 0%nat 0%nat /\ s_link s1 0%nat 0%nat = [[9; 12]]).
+Proof.
+  split; [apply wf_b_sound; vm_compute; reflexivity|].
+  split.
+  { intros c k inp Hk. destruct c as [|[|[|c]]]; simpl in Hk;
+      repeat (destruct k as [|k]; simpl in Hk; [inversion Hk; reflexivity|]); try (destruct k; discriminate).
+    unfold getc in Hk. destruct c; simpl in Hk; destruct k; discriminate. }
+  split; [reflexivity|]. vm_compute. repeat split; try reflexivity. intros E; inversion E.
+Qed.
+
 Print Assumptions C05_final_times.
+Print Assumptions C05_final_times_with_delay_to_pull.
 Print Assumptions C05_list_order_is_a_priority_order.
 Print Assumptions C05_outcome_class.
 Print Assumptions C05_request_is_a_function_of_the_update_index.
